@@ -3,7 +3,11 @@
 //!    exit 3: the values violate an assumption of the harness (replay diverged).
 //! replay --enum <harness> [max]     small-scope enumeration of a native-only bounded harness (all combinations of
 //!    small value domains); prints the number of cases; exit 101 on the first failing combination.
+#[cfg(kani)]
+fn main() {}
+#[cfg(not(kani))]
 use std::panic::{catch_unwind, AssertUnwindSafe};
+#[cfg(not(kani))]
 fn main() {
     let args: Vec<String> = std::env::args().collect();
     if args.len() < 2 {
